@@ -15,6 +15,7 @@ fn main() {
     let mut out: Option<String> = None;
     let mut replay: Option<String> = None;
     let mut scale = 1.0f64;
+    let mut only_class: Option<u64> = None;
     let mut cpu_limit = 20u64;
     let mut wall_limit = 3 * 3600u64;
     let mut i = 2;
@@ -27,6 +28,7 @@ fn main() {
             "--out" => out = Some(v),
             "--replay" => replay = Some(v),
             "--scale" => scale = v.parse().unwrap_or(1.0),
+            "--only-class" => only_class = v.parse().ok(),
             "--cpu-limit" => cpu_limit = v.parse().unwrap_or(20),
             "--wall-limit" => wall_limit = v.parse().unwrap_or(10800),
             x => {
@@ -43,7 +45,11 @@ fn main() {
         threads,
         profile: if cfg!(debug_assertions) { "dbg".into() } else { "rel".into() },
         scale,
+        only_class,
     };
+    // an empty trust store: 'untrusted certificate' is then deterministic and building a TLS connector is cheap
+    std::env::set_var("SSL_CERT_FILE", "/dev/null");
+    std::env::set_var("SSL_CERT_DIR", "/nonexistent-rdpverif");
     mon::install_panic_hook();
     mon::install_death_recorder(2);
     mon::start_watchdog(cpu_limit, wall_limit);
